@@ -4,7 +4,7 @@
    declared with a write mode, every buffer it reads is declared, and every identifier a task body refers to is copied at task
    creation (or is a member reached through the method's own `this`, outside any lambda).
    Part 2 (appended below as the proofs land): determinism of legal schedules for the task model. *)
-From Tbfmm Require Import Base.Prelude Gen.OmpTasksGen Sched.TaskDefs.
+From Tbfmm Require Import Base.Prelude Gen.OmpTasksGen Gen.SpecxTasksGen Gen.StarpuTasksGen Sched.TaskDefs.
 From Coq Require Import List String.
 Import ListNotations.
 
@@ -12,6 +12,38 @@ Import ListNotations.
 Theorem C03_descriptors_ok : forallb site_ok omp_sites = true /\ List.length omp_sites = 14%nat.
 Proof. vm_compute. split; reflexivity. Qed.
 Print Assumptions C03_descriptors_ok.
+
+(* the same check on the 8 + 6 `runtime.task(...)` submissions of the two Specx executors (Gen/SpecxTasksGen.v, written by
+   tools/translate_specx.py): declared SpRead / SpCommutativeWrite accesses cover what the wrapper reads / writes; the callable
+   owns (by-value capture) or references tree objects only, and reaches members through a captured `this` *)
+Theorem C03_specx_descriptors_ok : forallb site_ok specx_sites = true /\ List.length specx_sites = 14%nat.
+Proof. vm_compute. split; reflexivity. Qed.
+Print Assumptions C03_specx_descriptors_ok.
+
+Example C03_specx_byref_local_rejected :
+  site_ok {| s_exec := "specx"; s_fn := "M2M"; s_in_lambda := false; s_default_shared := false;
+             s_deps := [(MIn, KMult, "lowerGroup"); (MCommute, KMult, "upperGroup")];
+             s_firstprivate := ["upperGroup"; "lowerGroup"];          (* idxLevel captured by reference: not owned *)
+             s_wrappers := [("M2M", ["lowerGroup"; "upperGroup"])];
+             s_refs := ["idxLevel"; "kernelWrapper"; "kernels"; "lowerGroup"; "upperGroup"] |}%string = false.
+Proof. vm_compute. reflexivity. Qed.
+
+(* the 8 + 6 starpu_insert_task sites (Gen/StarpuTasksGen.v, written by tools/translate_starpu.py): buffer i of the insertion
+   is declared with a mode that covers what the callback's wrapper does to the group view built from it; the modes at the
+   insertion equal the codelet's modes, the number of handles equals nbuffers and the number of buffers the callback reads;
+   as many STARPU_VALUE arguments are packed as the callback unpacks; the argument list is 0-terminated *)
+Definition gmode_eqb (a b : gmode) : bool :=
+  match a, b with MIn, MIn | MOut, MOut | MInout, MInout | MCommute, MCommute => true | _, _ => false end.
+Definition starpu_meta_ok (sm : site * starpu_meta) : bool :=
+  let '(s, m) := sm in
+  list_eqb gmode_eqb (map (fun x => fst (fst x)) (s_deps s)) (sm_modes m)
+  && Nat.eqb (List.length (s_deps s)) (sm_nbuffers m) && Nat.eqb (sm_cb_buffers m) (sm_nbuffers m)
+  && Nat.eqb (sm_packed m) (sm_unpacked m) && sm_terminated m.
+Theorem C03_starpu_descriptors_ok :
+  forallb site_ok starpu_sites = true /\ forallb starpu_meta_ok (combine starpu_sites starpu_metas) = true
+  /\ List.length starpu_sites = 14%nat /\ List.length starpu_metas = 14%nat.
+Proof. vm_compute. repeat split; reflexivity. Qed.
+Print Assumptions C03_starpu_descriptors_ok.
 
 (* execute() submits the passes in this order (near field before L2P), in both executors *)
 Theorem C03_execute_order :
